@@ -398,6 +398,17 @@ pub fn gen(out: &mut dyn std::io::Write, thorough: bool, seed: u64) {
             lines.insert(at, format!("{}\0{}", "あ".repeat(k), if r.chance(1, 2) { "x" } else { "漢字" }));
             lines.insert(at, format!("ab{}\0", "漢".repeat(k + 1)));
         }
+        // every character of the half-width katakana block, alone and followed by each of the two half-width sound marks (whatever the
+        // normaliser does with such a pair, the output line is made of the ORIGINAL characters), eight per line
+        if i % 4 == 0 {
+            let hw: Vec<char> = (0xFF61u32..=0xFF9D).filter_map(char::from_u32).collect();
+            for (k, chunk) in hw.chunks(8).enumerate() {
+                let mark = ['\u{ff9e}', '\u{ff9f}'][(k + i / 4) % 2];
+                let l: String = chunk.iter().flat_map(|&c| if k % 3 == 2 { vec![c] } else { vec![c, mark] }).collect();
+                let at = r.below(lines.len() + 1);
+                lines.insert(at, l);
+            }
+        }
         let mut stdin = lines.join(if r.chance(1, 5) { "\r\n" } else { "\n" });
         if r.chance(4, 5) {
             stdin.push('\n');
